@@ -47,10 +47,12 @@ type simServerConn struct {
 }
 
 type farm struct {
-	mu       sync.Mutex
-	conns    []*simServerConn
-	fail     bool // dialer fails
-	closeErr bool // dialed connections close, but report an error from Close (like TLS on a cut link)
+	mu    sync.Mutex
+	conns []*simServerConn
+	fail  bool // dialer fails
+	// failAfter >= 0: only that many dials succeed
+	failAfter int
+	closeErr  bool // dialed connections close, but report an error from Close (like TLS on a cut link)
 	// closeDelay: closing a dialed connection takes this long; it counts as open until then
 	closeDelay time.Duration
 }
@@ -58,7 +60,7 @@ type farm struct {
 func (f *farm) DialContext(ctx context.Context, network, addr string) (net.Conn, error) {
 	f.mu.Lock()
 	defer f.mu.Unlock()
-	if f.fail {
+	if f.fail || (f.failAfter > 0 && len(f.conns) >= f.failAfter-1) {
 		return nil, errors.New("dial refused")
 	}
 	c := simnet.NewConn()
@@ -605,6 +607,79 @@ func TestC12PoolRaces(t *testing.T) {
 		})
 		st.Case(stats.Hash("c12p", workers, maxConns, iters, strings.Join(kinds, "")), true, func() any {
 			return map[string]any{"kind": "pool-race-scenario", "workers": workers, "max_conns": maxConns, "iterations": iters, "kinds": strings.Join(kinds, ",")}
+		})
+	})
+}
+
+// Construction: a pool that cannot be brought up (the dialer refuses the k-th connection
+// while MinConns or the availability check still need it) returns an error and leaves none of
+// the connections it did open behind; one that comes up holds exactly what was asked for and
+// closes all of it on Close.
+func TestC11PoolConstruction(t *testing.T) {
+	st := stats.G()
+	rapid.Check(t, func(rt *rapid.T) {
+		maxConns := rapid.IntRange(1, 4).Draw(rt, "max-conns")
+		minConns := rapid.IntRange(0, maxConns).Draw(rt, "min-conns")
+		viaDial := rapid.Bool().Draw(rt, "chpool.Dial")
+		okDials := rapid.IntRange(0, 5).Draw(rt, "dials-that-succeed") // 5 = all
+		slowClose := rapid.SampledFrom([]time.Duration{0, 0, 3 * time.Millisecond}).Draw(rt, "close-takes")
+		rapid.SyncTest(rt, func(rt *rapid.T) {
+			f := &farm{closeDelay: slowClose}
+			if okDials < 5 {
+				f.failAfter = okDials + 1
+			}
+			opt := chpool.Options{ClientOptions: ch.Options{Dialer: f, Logger: zap.NewNop(), ReadTimeout: 100 * time.Millisecond},
+				MaxConns: int32(maxConns), MinConns: int32(minConns), HealthCheckPeriod: time.Hour}
+			var p *chpool.Pool
+			var err error
+			if viaDial {
+				p, err = chpool.Dial(context.Background(), opt)
+			} else {
+				p, err = chpool.New(context.Background(), opt)
+			}
+			need := minConns
+			if viaDial {
+				need = max(1, minConns)
+			}
+			synctest.Wait()
+			open := func() (n, dialed int) {
+				f.mu.Lock()
+				defer f.mu.Unlock()
+				for _, sc := range f.conns {
+					if !sc.conn.Closed() {
+						n++
+					}
+				}
+				return n, len(f.conns)
+			}
+			if okDials < need {
+				if err == nil || p != nil {
+					rt.Fatalf("pool needing %d connections came up (err=%v) although only %d dials succeed", need, err, okDials)
+				}
+				if n, dialed := open(); n != 0 {
+					rt.Fatalf("construction failed (%v) but %d of the %d connections it opened are still open", err, n, dialed)
+				}
+			} else {
+				if err != nil {
+					rt.Fatalf("construction with MinConns %d MaxConns %d (Dial=%v) failed although %d dials succeed: %v", minConns, maxConns, viaDial, okDials, err)
+				}
+				if n, dialed := open(); n != need || dialed != need || int(p.Stat().TotalResources()) != need {
+					rt.Fatalf("pool came up with %d open connections (%d dialed, Stat total %d), want %d", n, dialed, p.Stat().TotalResources(), need)
+				}
+				if need > 0 || okDials > 0 {
+					if perr := p.Ping(context.Background()); perr != nil {
+						rt.Fatalf("Ping on the new pool: %v", perr)
+					}
+				}
+				p.Close()
+				synctest.Wait()
+				if n, dialed := open(); n != 0 {
+					rt.Fatalf("after Close %d of %d connections are still open", n, dialed)
+				}
+			}
+			st.Case(stats.Hash("c11c", maxConns, minConns, viaDial, okDials, slowClose), okDials < need || minConns > 0, func() any {
+				return map[string]any{"kind": "pool-construction", "max_conns": maxConns, "min_conns": minConns, "via_dial": viaDial, "dials_that_succeed": okDials, "needed": need}
+			})
 		})
 	})
 }
